@@ -191,6 +191,17 @@ def run(program, rep, tier):
                why='a component class ends up declaring on_add / on_remove '
                'callbacks it does not have (attaching it raises, or a foreign '
                'method is called as on_remove)')
+    # postponed callbacks travel through dispatch() to the world itself (the
+    # on_single_dispatch relay) and to components: the delivery loop must
+    # skip only listeners that are GONE (dereference `is None`), not ones
+    # that are falsy - a World subclass with __len__, an empty container
+    # component - or the postponed on_add / on_remove are lost
+    from rules import evrules
+    rep.borrow(evrules.delivery_sites, program, rep, 'C10', {'deref'},
+               keep=lambda o: o.rule == 'C10.deref',
+               rename=lambda r: 'C02.relay-deref',
+               why='a postponed on_add / on_remove is silently dropped by the '
+               'delivery loop')
     # postponed callbacks are released once, in order (the C04 release rules)
     from rules import c04
     n0 = len(rep.obs)
